@@ -5,18 +5,6 @@ import Astral.Model.Julian
 -/
 namespace Astral
 
-/-- `Observer.elevation`: a float, or (height difference, distance) to an obscuring feature -/
-inductive Elev (α : Type) where
-  | flt (h : α)
-  | tup (dh dist : α)
-  deriving Repr, Inhabited
-
-structure Obs (α : Type) where
-  lat : α
-  lon : α
-  elev : Elev α
-  deriving Repr, Inhabited
-
 /-- what `astimezone` and the `datetime(..., tzinfo=tz)` constructor consult -/
 structure TZ where
   /-- offset (µs) in force at a UTC instant -/
